@@ -144,6 +144,12 @@ func (tc *typechecker) checkIdentifier(ident *ast.Identifier, used bool) *typeIn
 		tc.compilation.iteaToUsingCheck[ident.Name] = uc
 	}
 
+	if ti.IsConstant() && ti.InUniverse() {
+		// 'true' and 'false' are shared by all compilations and their type
+		// info is changed by setValue and by the emitter: use a copy.
+		ti = &typeInfo{Type: ti.Type, Properties: ti.Properties, Constant: ti.Constant}
+	}
+
 	tc.compilation.typeInfos[ident] = ti
 	return ti
 }
